@@ -406,6 +406,21 @@ impl EngineWorker {
                         pipeline_data
                             .into_value(nu_protocol::Span::unknown())
                             .map_err(Error::from)
+                    })
+                    .and_then(|value| {
+                        // An error raised while the result was being produced (a lazy `each`,
+                        // `| first`) arrives as a value: it is the closure failing all the same
+                        match first_error(&value) {
+                            Some(err) => {
+                                let working_set =
+                                    nu_protocol::engine::StateWorkingSet::new(&engine.state);
+                                Err(Error::from(nu_protocol::format_shell_error(
+                                    &working_set,
+                                    err,
+                                )))
+                            }
+                            None => Ok(value),
+                        }
                     });
 
                 let _ = resp_tx.send(output);
@@ -447,6 +462,15 @@ use nu_engine::eval_block_with_early_return;
 use nu_parser::parse;
 use nu_protocol::debugger::WithoutDebug;
 use nu_protocol::engine::{Closure, Stack, StateWorkingSet};
+/// The first error value in a closure result: the value itself, or an item of a list.
+fn first_error(value: &Value) -> Option<&nu_protocol::ShellError> {
+    match value {
+        Value::Error { error, .. } => Some(error),
+        Value::List { vals, .. } => vals.iter().find_map(first_error),
+        _ => None,
+    }
+}
+
 use nu_protocol::PipelineData;
 
 fn parse_handler_configuration_script(
